@@ -558,8 +558,29 @@ func (k *Kernel) addProposedHeader(ctx context.Context, s *kState, ph tmconsensu
 		mergedAny := false
 		for blockHash, laterSigs := range commitProofs {
 			target := backfillVRV.PrecommitProofs[blockHash]
-			if target == nil {
-				panic("TODO: backfill unknown block precommit")
+			isNewTarget := target == nil
+			if isNewTarget {
+				// The header carries precommits for a target we have not seen votes for
+				// (for example a validator that precommitted nil or another block).
+				// Start an empty proof for it against the committing view's validators.
+				content, err := tmconsensus.PrecommitSignBytes(
+					tmconsensus.VoteTarget{
+						Height: backfillVRV.Height, Round: backfillVRV.Round,
+						BlockHash: blockHash,
+					},
+					k.sigScheme,
+				)
+				if err != nil {
+					continue
+				}
+				target, err = k.cmspScheme.New(
+					content,
+					backfillVRV.ValidatorSet.PubKeys,
+					string(backfillVRV.ValidatorSet.PubKeyHash),
+				)
+				if err != nil {
+					continue
+				}
 			}
 
 			laterSparseCommit := gcrypto.SparseSignatureProof{
@@ -568,6 +589,10 @@ func (k *Kernel) addProposedHeader(ctx context.Context, s *kState, ph tmconsensu
 			}
 
 			mergeRes := target.MergeSparse(laterSparseCommit)
+			if isNewTarget && mergeRes.IncreasedSignatures {
+				// Only keep the new target if at least one of its signatures verified.
+				backfillVRV.PrecommitProofs[blockHash] = target
+			}
 			mergedAny = mergedAny || mergeRes.IncreasedSignatures
 		}
 
